@@ -164,6 +164,39 @@ class KH:
         t._set_K_H = wrapped
 
 
+class Derivations:
+    """Wraps `_compute_key` (instance attribute; `_activate_inbound/_outbound` call it through the transport)
+    and records every derivation together with the index of the exchange it belongs to (= number of
+    `_set_K_H` calls seen so far on that side - 1)."""
+
+    def __init__(self, kh):
+        self.kh = kh
+        self.lock = threading.Lock()
+        self.calls = {"c": [], "s": []}
+
+    def attach(self, t, side):
+        orig = t._compute_key
+
+        def wrapped(id, nbytes, _o=orig, _s=side):
+            out = _o(id, nbytes)
+            with self.lock:
+                self.calls[_s].append(dict(letter=id if isinstance(id, str) else id.decode(), n=nbytes, out=out,
+                                           exchange=len(self.kh.calls[_s]) - 1))
+            return out
+
+        t._compute_key = wrapped
+
+
+def rfc_derive(kex, K, H, letter, session_id, nbytes):
+    """RFC 4253 section 7.2: K1 = HASH(K || H || X || session_id), Kn = HASH(K || H || K1 || ... || Kn-1)."""
+    h = sshsig.KEX_HASH[kex]
+    km = sshsig.mpint(K)
+    out = h(km + H + letter.encode() + session_id).digest()
+    while len(out) < nbytes:
+        out += h(km + H + out).digest()
+    return out[:nbytes]
+
+
 # ---- honest pair with forced algorithms ----------------------------------------------
 class Lab:
     def __init__(self, rng, kex=None, hostalg=None, strict_c=True, strict_s=True, host_keys=None,
@@ -191,6 +224,9 @@ class Lab:
         self.kh = KH()
         self.kh.attach(self.tc, "c")
         self.kh.attach(self.ts, "s")
+        self.deriv = Derivations(self.kh)
+        self.deriv.attach(self.tc, "c")
+        self.deriv.attach(self.ts, "s")
         self.kex = kex
         self.hostalg = hostalg
 
